@@ -14,3 +14,35 @@ contract(f"{M}:LT.set_value_in_millis", props=["C20"], mode="int", spec_module="
          },
          canary={"exceeds": "lt_ms(result) < value"},
          float_as_real=True)
+
+LTS = T.rec(LT, multiplier=T.int(0, 63))
+contract(f"{M}:LT.set_value_in_seconds", props=["C20"], mode="int", spec_module="spec_geonet",
+         shapes={"self": LTS, "value": T.int()}, requires=["value >= 0"],
+         ensures={"not_exceeding": "lt_ms(result) <= value * 1000",
+                  "nonzero": "implies(value >= 1, lt_ms(result) > 0)",
+                  "largest_representable": "forall(lambda m, b: implies(0 <= m <= 63 and 0 <= b <= 3 and m * LT_BASE_MS[b] <= value * 1000, m * LT_BASE_MS[b] <= lt_ms(result)))",
+                  "valid": "lt_valid(result)"})
+contract(f"{M}:LT.get_value_in_millis", props=["C20"], mode="int", spec_module="spec_geonet",
+         shapes={"self": T.rec(LT)}, ensures={"decode_is_encoded_value": "result == lt_ms(self)"},
+         canary={"seconds": "result == lt_ms(self) // 1000"})
+contract(f"{M}:LT.get_value_in_seconds", props=["C20"], mode="int", spec_module="spec_geonet",
+         shapes={"self": T.rec(LT)}, requires=["self.multiplier >= 0"],
+         ensures={"floor_seconds": "result == lt_ms(self) // 1000", "never_exceeds": "result * 1000 <= lt_ms(self)"})
+
+MIBS = T.rec("flexstack.geonet.mib:MIB",
+             itsGnLocalGnAddr=T.rec("flexstack.geonet.gn_address:GNAddress", mid=T.rec("flexstack.geonet.gn_address:MID", mid=T.bytes_n(6))),
+             itsGnBeaconServiceMaxJitter=T.opt(T.float()))
+BH_POST = {"version": "result.version == 1", "nh_common": "result.nh.value == 1", "reserved": "result.reserved == 0",
+           "rhl": "result.rhl == rhl", "lt_valid": "lt_valid(result.lt)"}
+contract(f"{M}:BasicHeader.initialize_with_mib_request_and_rhl", props=["C20", "C02"], mode="int", spec_module="spec_geonet",
+         shapes={"mib": MIBS, "max_packet_lifetime": T.opt(T.float()), "rhl": T.int()},
+         requires=["mib.itsGnDefaultPacketLifetime >= 0", "max_packet_lifetime is None or max_packet_lifetime >= 0"],
+         ensures=dict(BH_POST, **{
+             "lifetime_not_exceeding_request": "lt_ms(result.lt) <= (max_packet_lifetime * 1000 if max_packet_lifetime is not None else mib.itsGnDefaultPacketLifetime * 1000)",
+             "lifetime_nonzero_from_50ms": "implies((max_packet_lifetime * 1000 if max_packet_lifetime is not None else mib.itsGnDefaultPacketLifetime * 1000) >= 50, lt_ms(result.lt) > 0)",
+             "lifetime_largest_representable": "forall(lambda m, b: implies(0 <= m <= 63 and 0 <= b <= 3 and m * LT_BASE_MS[b] <= (max_packet_lifetime * 1000 if max_packet_lifetime is not None else mib.itsGnDefaultPacketLifetime * 1000), m * LT_BASE_MS[b] <= lt_ms(result.lt)))"}),
+         float_as_real=True)
+contract(f"{M}:BasicHeader.initialize_with_mib_and_rhl", props=["C20", "C02"], mode="int", spec_module="spec_geonet",
+         shapes={"mib": MIBS, "rhl": T.int()}, requires=["mib.itsGnDefaultPacketLifetime >= 0"],
+         ensures=dict(BH_POST, **{"lifetime_not_exceeding_default": "lt_ms(result.lt) <= mib.itsGnDefaultPacketLifetime * 1000",
+                                  "lifetime_nonzero": "implies(mib.itsGnDefaultPacketLifetime >= 1, lt_ms(result.lt) > 0)"}))
